@@ -2,6 +2,7 @@ package openflow13
 
 import (
 	"encoding/binary"
+	"errors"
 	"fmt"
 
 	log "github.com/sirupsen/logrus"
@@ -49,6 +50,9 @@ func (s *MultipartRequest) UnmarshalBinary(data []byte) error {
 	if err != nil {
 		return err
 	}
+	if len(data) < 16 {
+		return errors.New("the []byte is too short to unmarshal a MultipartRequest header")
+	}
 	n := s.Header.Len()
 
 	s.Type = binary.BigEndian.Uint16(data[n:])
@@ -60,23 +64,27 @@ func (s *MultipartRequest) UnmarshalBinary(data []byte) error {
 	var req util.Message
 	switch s.Type {
 	case MultipartType_Aggregate:
-		req = s.Body.(*AggregateStatsRequest)
+		req = NewAggregateStatsRequest()
 	case MultipartType_Desc:
 		break
 	case MultipartType_Flow:
-		req = s.Body.(*FlowStatsRequest)
+		req = NewFlowStatsRequest()
 	case MultipartType_Port:
-		req = s.Body.(*PortStatsRequest)
+		req = NewPortStatsRequest()
 	case MultipartType_Table:
 		break
 	case MultipartType_Queue:
-		req = s.Body.(*QueueStatsRequest)
+		req = NewQueueStatsRequest()
 	case MultipartType_Experimenter:
 		break
 	}
 	if req == nil {
 		return fmt.Errorf("unsupported MultipartRequest type: %d", s.Type)
 	}
+	if err = req.UnmarshalBinary(data[n:]); err != nil {
+		return err
+	}
+	s.Body = req
 	return err
 }
 
@@ -121,7 +129,13 @@ func (s *MultipartReply) MarshalBinary() (data []byte, err error) {
 
 func (s *MultipartReply) UnmarshalBinary(data []byte) error {
 	err := s.Header.UnmarshalBinary(data)
-	n := s.Header.Len()
+	if err != nil {
+		return err
+	}
+	if len(data) < 16 || int(s.Header.Length) > len(data) {
+		return errors.New("the []byte is too short to unmarshal the MultipartReply it announces")
+	}
+	n := int(s.Header.Len())
 
 	s.Type = binary.BigEndian.Uint16(data[n:])
 	n += 2
@@ -129,19 +143,19 @@ func (s *MultipartReply) UnmarshalBinary(data []byte) error {
 	n += 2
 	n += 4 // for padding
 	var req []util.Message
-	for n < s.Header.Length {
+	for n < int(s.Header.Length) {
 		var repl util.Message
 		switch s.Type {
 		case MultipartType_Aggregate:
-			repl = new(AggregateStats)
+			repl = NewAggregateStats()
 		case MultipartType_Desc:
-			repl = new(DescStats)
+			repl = NewDescStats()
 		case MultipartType_Flow:
-			repl = new(FlowStats)
+			repl = NewFlowStats()
 		case MultipartType_Port:
-			repl = new(PortStats)
+			repl = NewPortStats()
 		case MultipartType_Table:
-			repl = new(TableStats)
+			repl = NewTableStats()
 		case MultipartType_Queue:
 			repl = new(QueueStats)
 		// FIXME: Support all types
@@ -149,11 +163,15 @@ func (s *MultipartReply) UnmarshalBinary(data []byte) error {
 			break
 		}
 
-		err = repl.UnmarshalBinary(data[n:])
+		if repl == nil {
+			return fmt.Errorf("unsupported MultipartReply type: %d", s.Type)
+		}
+		err = repl.UnmarshalBinary(data[n:s.Header.Length])
 		if err != nil {
 			log.Printf("Error parsing stats reply")
+			return err
 		}
-		n += repl.Len()
+		n += int(repl.Len())
 		req = append(req, repl)
 
 	}
@@ -291,6 +309,14 @@ func (s *DescStats) MarshalBinary() (data []byte, err error) {
 }
 
 func (s *DescStats) UnmarshalBinary(data []byte) error {
+	if len(data) < int(s.Len()) {
+		return errors.New("the []byte is too short to unmarshal a full DescStats message")
+	}
+	s.MfrDesc = make([]byte, DESC_STR_LEN)
+	s.HWDesc = make([]byte, DESC_STR_LEN)
+	s.SWDesc = make([]byte, DESC_STR_LEN)
+	s.SerialNum = make([]byte, SERIAL_NUM_LEN)
+	s.DPDesc = make([]byte, DESC_STR_LEN)
 	n := 0
 	copy(s.MfrDesc, data[n:])
 	n += len(s.MfrDesc)
@@ -366,6 +392,9 @@ func (s *FlowStatsRequest) MarshalBinary() (data []byte, err error) {
 }
 
 func (s *FlowStatsRequest) UnmarshalBinary(data []byte) error {
+	if len(data) < 32 {
+		return errors.New("the []byte is too short to unmarshal a full FlowStatsRequest message")
+	}
 	n := 0
 	s.TableId = data[n]
 	n += 1
@@ -383,6 +412,9 @@ func (s *FlowStatsRequest) UnmarshalBinary(data []byte) error {
 	n += 8
 
 	err := s.Match.UnmarshalBinary(data[n:])
+	if err != nil {
+		return err
+	}
 	n += int(s.Match.Len())
 
 	return err
@@ -468,9 +500,15 @@ func (s *FlowStats) MarshalBinary() (data []byte, err error) {
 }
 
 func (s *FlowStats) UnmarshalBinary(data []byte) error {
+	if len(data) < 48 {
+		return errors.New("the []byte is too short to unmarshal a full FlowStats message")
+	}
 	n := 0
 	s.Length = binary.BigEndian.Uint16(data[n:])
 	n += 2
+	if int(s.Length) > len(data) {
+		return errors.New("the flow stats length exceeds the []byte")
+	}
 	s.TableId = data[n]
 	n += 1
 	s.pad = data[n]
@@ -496,10 +534,16 @@ func (s *FlowStats) UnmarshalBinary(data []byte) error {
 	s.ByteCount = binary.BigEndian.Uint64(data[n:])
 	n += 8
 	err := s.Match.UnmarshalBinary(data[n:])
+	if err != nil {
+		return err
+	}
 	n += int(s.Match.Len())
 
 	for n < int(s.Length) {
-		instr := DecodeInstr(data[n:])
+		instr := DecodeInstr(data[n:s.Length])
+		if instr == nil {
+			return errors.New("failed to decode a flow stats instruction")
+		}
 		s.Instructions = append(s.Instructions, instr)
 		n += int(instr.Len())
 	}
@@ -555,6 +599,9 @@ func (s *AggregateStatsRequest) MarshalBinary() (data []byte, err error) {
 }
 
 func (s *AggregateStatsRequest) UnmarshalBinary(data []byte) error {
+	if len(data) < 32 {
+		return errors.New("the []byte is too short to unmarshal a full AggregateStatsRequest message")
+	}
 	n := 0
 	s.TableId = data[n]
 	n += 1
@@ -571,7 +618,9 @@ func (s *AggregateStatsRequest) UnmarshalBinary(data []byte) error {
 	s.CookieMask = binary.BigEndian.Uint64(data[n:])
 	n += 8
 
-	s.Match.UnmarshalBinary(data[n:])
+	if err := s.Match.UnmarshalBinary(data[n:]); err != nil {
+		return err
+	}
 	n += int(s.Match.Len())
 	return nil
 }
@@ -609,6 +658,9 @@ func (s *AggregateStats) MarshalBinary() (data []byte, err error) {
 }
 
 func (s *AggregateStats) UnmarshalBinary(data []byte) error {
+	if len(data) < int(s.Len()) {
+		return errors.New("the []byte is too short to unmarshal a full AggregateStats message")
+	}
 	n := 0
 	s.PacketCount = binary.BigEndian.Uint64(data[n:])
 	n += 8
@@ -667,13 +719,17 @@ func (s *TableStats) MarshalBinary() (data []byte, err error) {
 }
 
 func (s *TableStats) UnmarshalBinary(data []byte) error {
+	if len(data) < int(s.Len()) {
+		return errors.New("the []byte is too short to unmarshal a full TableStats message")
+	}
 	n := 0
 	s.TableId = data[0]
 	n += 1
-	copy(s.pad, data[n:])
-	n += len(s.pad)
-	copy(s.Name, data[n:])
-	n += len(s.Name)
+	copy(s.pad, data[n:n+3])
+	n += 3
+	s.Name = make([]byte, MAX_TABLE_NAME_LEN)
+	copy(s.Name, data[n:n+MAX_TABLE_NAME_LEN])
+	n += MAX_TABLE_NAME_LEN
 	s.Wildcards = binary.BigEndian.Uint32(data[n:])
 	n += 4
 	s.MaxEntries = binary.BigEndian.Uint32(data[n:])
@@ -718,11 +774,14 @@ func (s *PortStatsRequest) MarshalBinary() (data []byte, err error) {
 }
 
 func (s *PortStatsRequest) UnmarshalBinary(data []byte) error {
+	if len(data) < int(s.Len()) {
+		return errors.New("the []byte is too short to unmarshal a full PortStatsRequest message")
+	}
 	n := 0
 	s.PortNo = binary.BigEndian.Uint16(data[n:])
 	n += 2
-	copy(s.pad, data[n:])
-	n += len(s.pad)
+	copy(s.pad, data[n:n+6])
+	n += 6
 	return nil
 }
 
@@ -789,11 +848,14 @@ func (s *PortStats) MarshalBinary() (data []byte, err error) {
 }
 
 func (s *PortStats) UnmarshalBinary(data []byte) error {
+	if len(data) < int(s.Len()) {
+		return errors.New("the []byte is too short to unmarshal a full PortStats message")
+	}
 	n := 0
 	s.PortNo = binary.BigEndian.Uint16(data[n:])
 	n += 2
-	copy(s.pad, data[n:])
-	n += len(s.pad)
+	copy(s.pad, data[n:n+6])
+	n += 6
 	s.RxPackets = binary.BigEndian.Uint64(data[n:])
 	n += 8
 	s.TxPackets = binary.BigEndian.Uint64(data[n:])
@@ -851,6 +913,9 @@ func (s *QueueStatsRequest) MarshalBinary() (data []byte, err error) {
 }
 
 func (s *QueueStatsRequest) UnmarshalBinary(data []byte) error {
+	if len(data) < int(s.Len()) {
+		return errors.New("the []byte is too short to unmarshal a full QueueStatsRequest message")
+	}
 	n := 0
 	s.PortNo = binary.BigEndian.Uint16(data[n:])
 	n += 2
@@ -894,11 +959,14 @@ func (s *QueueStats) MarshalBinary() (data []byte, err error) {
 }
 
 func (s *QueueStats) UnmarshalBinary(data []byte) error {
+	if len(data) < int(s.Len()) {
+		return errors.New("the []byte is too short to unmarshal a full QueueStats message")
+	}
 	n := 0
 	s.PortNo = binary.BigEndian.Uint16(data[n:])
 	n += 2
-	copy(s.pad, data[n:])
-	n += len(s.pad)
+	copy(s.pad, data[n:n+2])
+	n += 2
 	s.QueueId = binary.BigEndian.Uint32(data[n:])
 	n += 4
 	s.TxBytes = binary.BigEndian.Uint64(data[n:])
@@ -949,13 +1017,16 @@ func (s *PortStatus) MarshalBinary() (data []byte, err error) {
 }
 
 func (s *PortStatus) UnmarshalBinary(data []byte) error {
+	if len(data) < 16 {
+		return errors.New("the []byte is too short to unmarshal a PortStatus header")
+	}
 	err := s.Header.UnmarshalBinary(data)
 	n := int(s.Header.Len())
 
 	s.Reason = data[n]
 	n += 1
-	copy(s.pad, data[n:])
-	n += len(s.pad)
+	copy(s.pad, data[n:n+7])
+	n += 7
 
 	err = s.Desc.UnmarshalBinary(data[n:])
 	return err
